@@ -79,10 +79,86 @@ def _svalue(call, D, form):
     return vec
 
 
-def fshift_experiment(n, ntr, axis, dt, D, calls, form=0, basis=True, seed=0):
+# The ways a caller may hold / hand over the same values (audit round e: "arguments always had one dtype, were always fresh
+# C-contiguous writable arrays, the axis always a keyword"); the judgement is the property layer's, whatever the variant.
+#   w=   storage of the data array of the first call: ro (read-only), strided (every second element of a larger buffer,
+#        along every axis), f (Fortran order; 1-D: negative stride), offset (window into a larger buffer)
+#   call= pos (axis positional), default (no axis argument when the shift axis is the last one, as voltage.decompress_destripe_cbin
+#        calls it), skw (s= keyword), ns (ns=n given for a real array), freq (the documented frequency-domain form: rfft of the
+#        data and ns=n in, spectrum out; the spectrum handed over is a scratch copy - only a *real* input is promised untouched)
+#   s=   npint (NumPy integer scalar / integer-dtype vector when every shift is a whole number), f4 (float32 scalar when exact),
+#        0d (zero-dimensional array for a single trace), ro / strided (storage of the shift vector)
+#   dc=  the sub-Nyquist test signal has a non-zero mean, different on every trace
+W_STORE = ("c", "ro", "strided", "f", "offset")
+CALL_FORMS = ("kw", "pos", "default", "skw", "ns", "freq")
+S_FORMS = ("", "npint", "f4", "0d", "ro", "strided")
+
+
+def make_var(rng):
+    """one variant, drawn so that about half of the experiments keep the plain form of each dimension"""
+    pick = lambda opts: opts[0] if rng.random() < 0.5 else rng.choice(opts[1:])  # noqa
+    return f"w={pick(W_STORE)},call={pick(CALL_FORMS)},s={pick(S_FORMS)},dc={int(rng.random() < 0.7)},k={rng.randint(0, 5)}"
+
+
+def _parse_var(var):
+    d = {"w": "c", "call": "kw", "s": "", "dc": "0", "k": "0"}
+    for item in (var or "").split(","):
+        if "=" in item:
+            k, v = item.split("=", 1)
+            d[k] = v
+    return d
+
+
+def _filler(x):
+    return np.nan if x.dtype.kind == "f" else np.iinfo(x.dtype).max
+
+
+def _store(x, how):
+    """(array holding the values of x the way `how` says, the buffer it lives in or None)"""
+    if how == "ro":
+        y = x.copy()
+        y.setflags(write=False)
+        return y, None
+    if how == "strided":
+        big = np.full(tuple(2 * k + 1 for k in x.shape), _filler(x), dtype=x.dtype)  # NaN between the elements: reading a
+        sl = tuple(slice(1, None, 2) for _ in x.shape)                               # neighbour, or writing one, shows
+        big[sl] = x
+        return big[sl], big
+    if how == "offset":
+        big = np.full(tuple(k + 3 for k in x.shape), _filler(x), dtype=x.dtype)
+        sl = tuple(slice(2 - i % 2, 2 - i % 2 + k) for i, k in enumerate(x.shape))
+        big[sl] = x
+        return big[sl], big
+    if how == "f":
+        if x.ndim == 1:
+            return x[::-1].copy()[::-1], None
+        return np.asfortranarray(x), None
+    return x, None
+
+
+def _svariant(sa, call, D, ntr, v, k):
+    """the shift argument `sa` of _svalue in the variant v['s'] (same value)"""
+    how = v["s"]
+    whole = all(x % D == 0 for x in call["s"])
+    if not isinstance(sa, np.ndarray):
+        if how == "npint" and whole:
+            return (np.int64, np.int32, np.int16)[k % 3](call["s"][0] // D)
+        if how == "f4" and Fraction(call["s"][0], D).denominator in (1, 2, 4, 16):
+            return np.float32(float(Fraction(call["s"][0], D)))
+        if how == "0d" and ntr <= 1:
+            return np.array(float(Fraction(call["s"][0], D)))
+        return sa
+    if how == "npint" and whole:
+        return np.array([x // D for x in call["s"]], dtype=(np.int64, np.int32, np.int16)[k % 3])
+    return sa
+
+
+def fshift_experiment(n, ntr, axis, dt, D, calls, form=0, basis=True, seed=0, var=""):
     """run one experiment on the real code; returns the trace record"""
     from ibldsp.fourier import fshift
+    import scipy.fft
     rng = np.random.default_rng(seed)
+    v = _parse_var(var)
     shape = _layout(n, ntr, axis)
     nt = max(ntr, 1)
     # the axis argument in one of its equivalent spellings
@@ -90,31 +166,53 @@ def fshift_experiment(n, ntr, axis, dt, D, calls, form=0, basis=True, seed=0):
         ax_arg = [0, -1][form % 2]
     else:
         ax_arg = [axis, axis - 2][form % 2]
-    rec = {"kind": "fshift", "n": n, "ntr": ntr, "axis": axis, "D": D, "dtype": dt, "form": form,
+    last = ntr == 0 or axis == 1
+    rec = {"kind": "fshift", "n": n, "ntr": ntr, "axis": axis, "D": D, "dtype": dt, "form": form, "var": var or "",
            "calls": [], "est": [], "shape_ok": True}
     obs = [{"scalar": c["scalar"], "s": list(c["s"]), "oshape": list(shape), "odtype": dt, "untouched": True,
             "maps": [], "md": [0] * nt, "q": ["none"] * nt} for c in calls]
-    sargs = [_svalue(c, D, form) for c in calls]
+    sargs = [_svariant(_svalue(c, D, form), c, D, ntr, v, int(v["k"]) + ic) for ic, c in enumerate(calls)]
     # "each trace can receive its own shift": the layout of the shift array is the caller's (flat, one column / one row matching the
     # data, the other orientation, a one-element array for a single trace) - the result has the shape of the data whatever it is
+    sbufs = [None] * len(calls)
     for ic, sa in enumerate(sargs):
         lay = (form // 2 + ic) % 3
-        if isinstance(sa, np.ndarray) and ntr > 0 and lay:
+        if isinstance(sa, np.ndarray) and sa.ndim and ntr > 0 and lay:
             sargs[ic] = sa.reshape((1, -1) if (axis == 0) == (lay == 1) else (-1, 1))
-        elif not isinstance(sa, np.ndarray) and ntr == 0 and form >= 4:
+        elif not isinstance(sa, np.ndarray) and ntr == 0 and form >= 4 and v["s"] in ("", "ro", "strided"):
             sargs[ic] = np.array([float(sa)])
+        if isinstance(sargs[ic], np.ndarray) and sargs[ic].ndim and v["s"] in ("ro", "strided"):
+            sargs[ic], sbufs[ic] = _store(sargs[ic], v["s"])
+
+    def call(cur, ic):
+        sa = sargs[ic]
+        how = v["call"]
+        if how == "freq":
+            W = scipy.fft.rfft(cur, axis=axis)
+            out = fshift(W, sa, axis=ax_arg, ns=n)
+            return scipy.fft.irfft(out, n, axis=axis)
+        if how == "pos":
+            return fshift(cur, sa, ax_arg)
+        if how == "default" and last:
+            return fshift(cur, sa)
+        if how == "skw":
+            return fshift(cur, s=sa) if (last and (int(v["k"]) + ic) % 2) else fshift(cur, s=sa, axis=ax_arg)
+        if how == "ns":
+            return fshift(cur, sa, axis=ax_arg, ns=n)
+        if ntr == 0 and form % 2 == 0 and ic == 0:
+            return fshift(cur, sa)      # default axis
+        return fshift(cur, sa, axis=ax_arg)
 
     def run(arr):
         outs = []
-        cur = arr
+        cur, buf = _store(arr, v["w"])
         for ic, c in enumerate(calls):
             keep = cur.copy()
+            bkeep = None if buf is None else buf.copy()
             skeep = sargs[ic].copy() if isinstance(sargs[ic], np.ndarray) else sargs[ic]
+            sbkeep = None if sbufs[ic] is None else sbufs[ic].copy()
             try:
-                if ntr == 0 and form % 2 == 0 and ic == 0:
-                    out = fshift(cur, sargs[ic])      # default axis
-                else:
-                    out = fshift(cur, sargs[ic], axis=ax_arg)
+                out = call(cur, ic)
             except Exception as ex:  # noqa  the property says the call returns the shifted array
                 for jc in range(ic, len(calls)):
                     obs[jc]["oshape"] = [-1]
@@ -122,14 +220,18 @@ def fshift_experiment(n, ntr, axis, dt, D, calls, form=0, basis=True, seed=0):
                 break
             if not (np.array_equal(cur, keep) and cur.dtype == keep.dtype):
                 obs[ic]["untouched"] = False
-            if isinstance(skeep, np.ndarray) and not np.array_equal(skeep, sargs[ic]):
+            if bkeep is not None and not np.array_equal(buf, bkeep, equal_nan=True):       # nor what surrounds a view
+                obs[ic]["untouched"] = False
+            if isinstance(skeep, np.ndarray) and not (np.array_equal(skeep, sargs[ic]) and skeep.dtype == sargs[ic].dtype):
+                obs[ic]["untouched"] = False
+            if sbkeep is not None and not np.array_equal(sbufs[ic], sbkeep, equal_nan=True):
                 obs[ic]["untouched"] = False
             if tuple(np.shape(out)) != shape and obs[ic]["oshape"] == list(shape):      # sticky once wrong
                 obs[ic]["oshape"] = [int(x) for x in np.shape(out)]
             if DTNAME.get(np.asarray(out).dtype) != dt and obs[ic]["odtype"] == dt:
                 obs[ic]["odtype"] = str(np.asarray(out).dtype)
             outs.append(out)
-            cur = out
+            cur, buf = out, None
         return outs
 
     # (a) the full impulse basis: run b puts e_((t+b)%n) on trace t
@@ -161,11 +263,13 @@ def fshift_experiment(n, ntr, axis, dt, D, calls, form=0, basis=True, seed=0):
         amp = rng.uniform(0.5, 1.5, size=(nt, ks.size))
         amp[:, 0] = 2.0
         phi = rng.uniform(0, 2 * np.pi, size=(nt, ks.size))
+        # a constant is a signal below Nyquist too: its delayed copy is itself
+        dc = rng.uniform(-3, 3, size=nt) if v["dc"] == "1" else np.zeros(nt)
         m = np.arange(n)
 
         def sig(delay):     # delay: (nt,) in samples -> (nt, n) analytic
             arg = 2 * np.pi * ks[np.newaxis, :, np.newaxis] * (m[np.newaxis, np.newaxis, :] - delay[:, np.newaxis, np.newaxis]) / n
-            return np.sum(amp[:, :, np.newaxis] * np.cos(arg + phi[:, :, np.newaxis]), axis=1)
+            return np.sum(amp[:, :, np.newaxis] * np.cos(arg + phi[:, :, np.newaxis]), axis=1) + dc[:, np.newaxis]
 
         x64 = sig(np.zeros(nt))
         arr = np.zeros(shape, dtype=NPDT[dt])
@@ -217,28 +321,44 @@ def _shift_programs(rng, n, ntr, quick):
 
 def fshift_plan(ctx):
     rng = random.Random(ctx.seed)
-    lens = list(range(2, 65 if ctx.quick else 257)) + BIG
+    rngv = random.Random(ctx.seed + 7)          # variants and extra layouts: the stream of the shift programs stays as it was
+    # lengths of the whole range 2..2048, not only the three large ones that happen to be prime / powers of two
+    extra = sorted(rngv.sample(range(257, 2048), 4 if ctx.quick else 24))
+    lens = list(range(2, 65 if ctx.quick else 257)) + sorted(set(BIG + extra))
     plan = []
+
+    def add(n, ntr, axis, D, calls, r):
+        dts = ("f4", "f8")
+        if n > 300 or (ctx.quick and n > 32):
+            dts = (r.choice(dts),)
+        for dt in dts:
+            allint = all(x % D == 0 for c in calls for x in c["s"])
+            basis = n <= 64 or allint
+            if n > 300 and (not allint or r.random() < 0.6):
+                basis = False
+            plan.append((n, ntr, axis, dt, D, calls, r.randint(0, 5), basis, r.randint(0, 2 ** 31 - 1), make_var(rngv)))
+
     for n in lens:
         for ntr, axis in ((0, 0), (3, 0), (3, 1), (2, 1)):
             if ntr == 2 and n > 12:
                 continue
             for D, calls in _shift_programs(rng, n, ntr, ctx.quick):
-                dts = ("f4", "f8")
-                if n > 300 or (ctx.quick and n > 32):
-                    dts = (rng.choice(dts),)
-                for dt in dts:
-                    allint = all(x % D == 0 for c in calls for x in c["s"])
-                    basis = n <= 64 or allint
-                    if n > 300 and (not allint or rng.random() < 0.6):
-                        basis = False
-                    plan.append((n, ntr, axis, dt, D, calls, rng.randint(0, 5), basis, rng.randint(0, 2 ** 31 - 1)))
+                add(n, ntr, axis, D, calls, rng)
+        # a 2-D array with a single trace (column / row), and more traces than three (also more traces than samples)
+        for ntr, axis in ((1, 0), (1, 1), (rngv.choice([4, 5, 7, 8]), rngv.randint(0, 1))):
+            progs = _shift_programs(rngv, n, ntr, ctx.quick)
+            for D, calls in rngv.sample(progs, min(len(progs), 3 if (ctx.quick or n > 300) else 6)):
+                add(n, ntr, axis, D, calls, rngv)
     return plan
 
 
 # ----------------------------------------------------------------------------------------------
 # delay estimation: wave_shift_corrmax, shift_waveform
 # ----------------------------------------------------------------------------------------------
+
+# units a waveform comes in: normalised, volts (what spikeglx.Reader returns), microvolts
+SCALES = (1.0, 1e-6, 2.5e-5, 80.0)
+
 
 def _model_waveforms(rng, k):
     """single-trace waveforms from neurowaveforms.model: (label, 1-D float array)"""
@@ -261,7 +381,16 @@ def _model_waveforms(rng, k):
             pad = len(out) % 4
             w = np.r_[w, np.zeros(pad, dtype=w.dtype)]
             out.append((f"model{i}/trace{int(tr)}/form{form}/len{w.size}", w))
-    return out
+    # the same waveforms as a caller holds them: other units, float32, read-only, a strided view (drawn after the loop: the
+    # waveforms themselves are the ones of earlier rounds)
+    res = []
+    for j, (label, w) in enumerate(out):
+        sc = SCALES[(j + rng.randint(0, 3)) % 4] if j else 1.0
+        dt = w.dtype if rng.random() < 0.6 else (np.float32 if w.dtype == np.float64 else np.float64)
+        hold = rng.choice(("c", "c", "ro", "strided", "f"))
+        w = (w.astype(np.float64) * sc).astype(dt)
+        res.append((f"{label}/x{sc:g}/{np.dtype(dt).name}/{hold}", w, hold))
+    return res
 
 
 def estimate_records(ctx):
@@ -269,26 +398,36 @@ def estimate_records(ctx):
     from ibldsp.waveforms import wave_shift_corrmax, shift_waveform
     from neurowaveforms.model import generate_waveform
     rng = random.Random(ctx.seed + 1)
+    rngv = random.Random(ctx.seed + 11)
     recs = []
-    base = {"kind": "estimate", "n": 0, "ntr": 0, "axis": 0, "D": 1, "dtype": "f8", "form": 0, "calls": []}
-    for label, w in _model_waveforms(rng, 3 if ctx.quick else 12):
+    base = {"kind": "estimate", "n": 0, "ntr": 0, "axis": 0, "D": 1, "dtype": "f8", "form": 0, "var": "", "calls": []}
+    for label, w0, hold in _model_waveforms(rng, 3 if ctx.quick else 12):
         est = []
         ok = True
+        w, wbuf = _store(w0, hold)
+        wkeep, wbkeep = w.copy(), (None if wbuf is None else wbuf.copy())
         for d10 in range(-30, 31):
             d = d10 / 10
             try:
-                w2 = fshift(w, d)
+                w2, w2buf = _store(fshift(w, d), hold if d10 % 2 else "c")
+                if d10 == 0 and hold != "c":
+                    w2, w2buf = w, wbuf                   # the same array passed twice
+                k2, kb2 = w2.copy(), (None if w2buf is None else w2buf.copy())
                 resync, sc = wave_shift_corrmax(w, w2)
                 sc = float(sc)
+                # neither waveform is the callee's to change (nor what surrounds a view of it)
+                ok = ok and np.array_equal(w, wkeep) and np.array_equal(w2, k2)
+                ok = ok and (wbuf is None or np.array_equal(wbuf, wbkeep, equal_nan=True))
+                ok = ok and (w2buf is None or np.array_equal(w2buf, kb2, equal_nan=True))
             except Exception:  # noqa
                 resync, sc = np.zeros(0), 999.0
             ok = ok and np.shape(resync) == w.shape
-            r = float(np.linalg.norm(resync - w) / np.linalg.norm(w)) if np.shape(resync) == w.shape else 9.0
+            r = float(np.linalg.norm(resync - wkeep) / np.linalg.norm(wkeep)) if np.shape(resync) == w.shape else 9.0
             est.append([d10 * 10, int(round(sc * 100)) if np.isfinite(sc) else 99900, "ok" if r <= 0.05 else "bad"])
             ctx.count(1, key=("est", label, d10))
         recs.append(dict(base, fn="wave_shift_corrmax", label=label, n=int(w.size), est=est, shape_ok=bool(ok)))
     # shift_waveform: a cluster of copies of one multi-trace waveform, a minority of them shifted
-    for i in range(2 if ctx.quick else 8):
+    for i in range(3 if ctx.quick else 10):
         wav = generate_waveform(sxy=np.array([43.0, rng.uniform(1850, 2050), 0.0]), vertical_velocity_mps=rng.uniform(1, 6))
         sel = np.argsort(-np.max(np.abs(wav), axis=1))[:rng.randint(2, 6)]
         wav = wav[np.sort(sel)]                                     # (trace, time)
@@ -296,11 +435,29 @@ def estimate_records(ctx):
         shifts = [0.0] * nsp
         for j in rng.sample(range(nsp), (nsp - 1) // 2 - 1):
             shifts[j] = rng.randint(-30, 30) / 10
+        # the cluster as a caller holds it: units, float32, one trace only, a few spikes, strided / Fortran / windowed storage
+        sc = SCALES[(i + rngv.randint(0, 3)) % 4] if i else 1.0
+        dt = np.float64 if (i + rngv.randint(0, 1)) % 2 == 0 else np.float32
+        # (not read-only: shift_waveform goes through waveforms._validate_arr_in, which assigns 0 to the NaNs of the caller's
+        # array in place and so refuses a read-only one - reported as an observation, the property does not speak about it)
+        hold = rngv.choice(("c", "strided", "f", "offset")) if i else "c"
+        # quick: clusters 1 and 2 are the single-trace one and the one with few spikes (which is which depends on the seed)
+        mode = 0 if not i else (2 + (i + ctx.seed) % 2 if i <= 2 else (i + ctx.seed) % 4)
+        if mode == 3:
+            wav = wav[[int(np.argmax(np.max(np.abs(wav), axis=1)))]]        # (1, time)
+        if mode == 2:
+            nsp = rngv.randint(5, 8)
+            shifts = [0.0] * nsp
+            shifts[rngv.randrange(nsp)] = rngv.randint(-30, 30) / 10
+        label = f"cluster{i}" + (f"/x{sc:g}/{np.dtype(dt).name}/{hold}/tr{wav.shape[0]}/sp{nsp}" if i else "")
         try:
             cluster = np.stack([fshift(wav, s, axis=-1) for s in shifts])   # (spike, trace, time)
-            keep = cluster.copy()
+            cluster, cbuf = _store((cluster * sc).astype(dt), hold)
+            wav = wav * sc
+            keep, bkeep = cluster.copy(), (None if cbuf is None else cbuf.copy())
             out, applied = shift_waveform(cluster)
             ok = np.shape(out) == cluster.shape and np.array_equal(cluster, keep) and np.all(np.isfinite(applied))
+            ok = ok and (cbuf is None or np.array_equal(cbuf, bkeep, equal_nan=True))
         except Exception:  # noqa
             out, applied, ok = None, [0.0] * nsp, False
         est = []
@@ -308,8 +465,8 @@ def estimate_records(ctx):
             r = float(np.linalg.norm(out[j] - wav) / np.linalg.norm(wav)) if ok else 9.0
             # shift_waveform reports the shift it applied to undo the delay: minus the delay
             est.append([int(round(shifts[j] * 100)), int(round(-float(applied[j]) * 100)), "ok" if r <= 0.05 else "bad"])
-            ctx.count(1, key=("cluster", i, j))
-        recs.append(dict(base, fn="shift_waveform", label=f"cluster{i}", n=int(wav.shape[1]), est=est, shape_ok=bool(ok)))
+            ctx.count(1, key=("cluster", label, j))
+        recs.append(dict(base, fn="shift_waveform", label=label, n=int(wav.shape[1]), est=est, shape_ok=bool(ok)))
     return recs
 
 
@@ -320,27 +477,59 @@ def estimate_records(ctx):
 def replay_roll_case(c, dt, seed=0):
     """returns None if the real fshift reproduces the token map computed by TLC, else a description"""
     from ibldsp.fourier import fshift
+    import scipy.fft
     rng = np.random.default_rng(seed)
     shape = tuple(c["shape"])
     x = rng.permutation(int(np.prod(shape))).reshape(shape).astype(NPDT[dt]) + 1
     s = int(c["s"][0]) if c["scalar"] else np.array(c["s"], dtype=float)
+    # the caller's way of holding the arguments (see make_var): integer-dtype shift vectors / NumPy integer scalars, a
+    # zero-dimensional shift for a single trace, stored data (read-only, strided, Fortran order, window of a buffer)
+    k = seed // 3
+    if not c["scalar"] and k % 4 == 1:
+        s = s.astype((np.int64, np.int32, np.int16, np.int8)[(k // 4) % 4])
+    elif c["scalar"] and k % 4 == 1:
+        s = (np.int64, np.int32, np.int16, np.int8)[(k // 4) % 4](s)
+    elif c["scalar"] and k % 4 == 2 and int(np.prod(shape)) == shape[c["axis"]]:
+        s = np.array(float(s))
     if not c["scalar"] and len(shape) == 2 and seed % 3:
         s = s.reshape((1, -1) if (c["axis"] % 2 == 0) == (seed % 3 == 1) else (-1, 1))     # column / row layouts of the shift vector
-    elif c["scalar"] and len(shape) == 1 and seed % 3 == 1:
+    elif c["scalar"] and len(shape) == 1 and seed % 3 == 1 and not isinstance(s, (np.ndarray, np.generic)):
         s = np.array([float(s)])
+    if isinstance(s, np.ndarray) and s.ndim and k % 5 == 3:
+        s = _store(s, "strided" if k % 2 else "ro")[0]
+    wst = W_STORE[(seed // 2) % 7] if (seed // 2) % 7 < len(W_STORE) else "c"
+    x, buf = _store(x, wst)
     keep = x.copy()
+    bkeep = None if buf is None else buf.copy()
+    skeep = s.copy() if isinstance(s, np.ndarray) else s
+    how = (seed // 5) % 6
+    last = c["axis"] == len(shape) - 1
+    held = (f" [data held as '{wst}', call form {how}, shift passed as {type(s).__name__}"
+            + (f" {s.dtype}{list(s.shape)}]" if isinstance(s, np.ndarray) else "]"))
     try:
-        y = fshift(x, s, axis=c["axis"])
+        if how == 1 and last:
+            y = fshift(x, s)                                  # default axis: the last one
+        elif how == 2:
+            y = fshift(x, s=s, axis=c["axis"] - len(shape))
+        elif how == 3:
+            y = fshift(x, s, c["axis"], shape[c["axis"]])     # positional axis and ns
+        elif how == 4:                                        # frequency-domain form
+            y = scipy.fft.irfft(fshift(scipy.fft.rfft(x, axis=c["axis"]), s, axis=c["axis"], ns=shape[c["axis"]]),
+                                shape[c["axis"]], axis=c["axis"])
+        else:
+            y = fshift(x, s, axis=c["axis"])
     except Exception as ex:  # noqa
-        return f"raised {type(ex).__name__}: {ex}"
+        return f"raised {type(ex).__name__}: {ex}" + held
     if np.shape(y) != shape or y.dtype != x.dtype:
-        return f"shape/dtype {np.shape(y)}/{getattr(y, 'dtype', None)}"
-    if not np.array_equal(x, keep):
-        return "input array modified"
+        return f"shape/dtype {np.shape(y)}/{getattr(y, 'dtype', None)}" + held
+    if not np.array_equal(x, keep) or (bkeep is not None and not np.array_equal(buf, bkeep, equal_nan=True)):
+        return "input array modified" + held
+    if isinstance(skeep, np.ndarray) and not (np.array_equal(s, skeep) and s.dtype == skeep.dtype):
+        return "shift array modified" + held
     exp = x.reshape(-1)[np.array(c["src"])].reshape(shape)
     err = float(np.max(np.abs(y.astype(np.float64) - exp)) / np.max(np.abs(exp)))
-    if err > TOL[dt] * 10:
-        return f"output is not the expected rearrangement of the input (rel. err {err:.3g})"
+    if not err <= TOL[dt] * 10:
+        return f"output is not the expected rearrangement of the input (rel. err {err:.3g})" + held
     return None
 
 
@@ -392,7 +581,7 @@ def _validate(ctx, recs, label, jvms=4):
 def _describe(t):
     if t["kind"] == "fshift":
         calls = "; ".join(("s=" if c["scalar"] else "s[]=") + ",".join(f"{x}/{t['D']}" for x in c["s"]) for c in t["calls"])
-        return f"fshift {t['dtype']} shape={_layout(t['n'], t['ntr'], t['axis'])} axis={t['axis']} {calls}"
+        return f"fshift {t['dtype']} shape={_layout(t['n'], t['ntr'], t['axis'])} axis={t['axis']} [{t.get('var', '')}] {calls}"
     return f"{t['fn']} {t['label']} n={t['n']}"
 
 
@@ -433,7 +622,7 @@ def run(ctx):
                 nbad += 1
                 key = "shift:roll" if c["scalar"] else "shift:pertrace-roll"
                 ctx.violation(key, f"fshift(x{tuple(c['shape'])} {dt}, s={c['s']}, axis={c['axis']}): {why}; expected "
-                              f"element map computed by TLC from spec/lib/Shift.tla", {"type": "roll", "case": c, "dtype": dt})
+                              f"element map computed by TLC from spec/lib/Shift.tla", {"type": "roll", "case": c, "dtype": dt, "seed": ctx.seed + k})
     badp = replay_parabolic(cases["parabolic"])
     ctx.count(len(cases["parabolic"]))
     for c, got in badp[:5]:
@@ -554,7 +743,7 @@ def selftest(ctx, recs, bad, cases):
 
 def replay(ctx, sc):
     if sc["type"] == "roll":
-        why = replay_roll_case(sc["case"], sc["dtype"])
+        why = replay_roll_case(sc["case"], sc["dtype"], seed=sc.get("seed", 0))
         if why:
             ctx.violation("shift:roll" if sc["case"]["scalar"] else "shift:pertrace-roll", f"replay: {why}", sc)
         return
@@ -562,7 +751,7 @@ def replay(ctx, sc):
     if t["kind"] == "fshift":
         calls = [{"scalar": c["scalar"], "s": c["s"]} for c in t["calls"]]
         recs = [fshift_experiment(t["n"], t["ntr"], t["axis"], t["dtype"], t["D"], calls, form=t.get("form", 0),
-                                  basis=bool(t["calls"][0]["maps"]), seed=k) for k in range(3)]
+                                  basis=bool(t["calls"][0]["maps"]), seed=k, var=t.get("var", "")) for k in range(3)]
     else:
         # estimator records are regenerated from the seeded plan
         ctx.seed, ctx.tier = sc.get("seed", ctx.seed), sc.get("tier", ctx.tier)
